@@ -25,16 +25,16 @@ theorem obfQ_edge (fin : Final) (hch : fin.chains = chainsOf [] fin.tree)
     (hw : ∀ rm ∈ fin.tree.tables, ∀ p ∈ rm, IsWord Gen.ObfData.charset p.2) (hk : keysPlain fin = true)
     {ta tb : String} (hq : ObfQ fin ta tb) : Edge hdataGen ta tb := by
   obtain ⟨sid, tables, hlc, rfl⟩ := hq
-  rcases resolveTables_cases tables tb with h | ⟨rm, hrm, hp⟩
+  rcases resolveTables_cases tables tb with h | ⟨te, hrm, hp⟩
   · rw [h]; exact Edge.refl _ _
   · have hmem := lookupChain_mem _ _ _ hlc
     rw [hch] at hmem
-    rcases chainsOf_tables [] fin.tree _ hmem rm hrm with h | h
+    rcases chainsOf_tables [] fin.tree _ hmem te hrm with h | h
     · cases h
-    · have h1 : plainEdged (resolveTables tables tb) = true := word_plainEdged (hw rm h _ hp)
+    · have h1 : plainEdged (resolveTables tables tb) = true := word_plainEdged (hw te.2 h _ hp)
       have h2 : plainEdged tb = true := by
         simp only [keysPlain, List.all_eq_true] at hk
-        exact hk rm h _ hp
+        exact hk te.2 h _ hp
       exact edge_plain h1 h2
 
 theorem all2_chunkSim_refl (hd : HData) (R : Frag → Frag → Prop) : ∀ (l : List Chunk), All2 (ChunkSim hd R) l l
